@@ -112,8 +112,14 @@ fn run_batch(
                             *slot.lock().unwrap() = Some((run, Instant::now()));
                         }
                         let mut sc = props::generate(prop, kind, seed, run, thorough);
+                        let t_sc = Instant::now();
                         let o = execute_isolated(&sc);
                         *slot.lock().unwrap() = None;
+                        let ms = t_sc.elapsed().as_millis() as u64;
+                        let cur = local.get("slowest_scenario_ms");
+                        if ms > cur {
+                            local.add("slowest_scenario_ms", ms - cur);
+                        }
                         local.inc("scenarios");
                         local.merge(o.stats);
                         if let Some(t) = o.trace {
@@ -162,8 +168,8 @@ fn execute_isolated(sc: &Scenario) -> exec::Outcome {
     })
 }
 
-const HANG_LIMIT_S: u64 = 30;
-const HANG_KEY: &str = "hang|no return within 30 s";
+const HANG_LIMIT_S: u64 = 90;
+const HANG_KEY: &str = "hang|no return within 90 s";
 
 /// A scenario did not return: re-run it alone from its replay file in a fresh process before it is
 /// believed, then report it (the stuck worker cannot be joined, so the process exits here).
@@ -171,7 +177,7 @@ fn report_hang(prop: &str, kind: &str, seed: u64, run: u64, thorough: bool) -> !
     let sc = props::generate(prop, kind, seed, run, thorough);
     let v = Violation::new(
         "hang",
-        "no return within 30 s".into(),
+        "no return within 90 s".into(),
         format!("scenario {} {} run {} did not return within {} s", prop, kind, run, HANG_LIMIT_S),
     );
     let path = write_replay(prop, &sc, &v, serde_json::json!({"note": "hangs are not minimised"}));
